@@ -611,17 +611,20 @@ static Val icmp(unsigned pred, const Val& a, const Val& b) {
     }
     if (z) return S(z, 1);
   }
+  // canonical atoms (eq with ordered operands, ult, slt) so that equivalent comparisons share one ast
+  // and are decided once per path (see decide(): `not` is looked through)
+  auto eq = [&](Z3_ast p, Z3_ast q) { return Z3_get_ast_id(Z, p) <= Z3_get_ast_id(Z, q) ? Z3_mk_eq(Z, p, q) : Z3_mk_eq(Z, q, p); };
   switch (pred) {
-  case CmpInst::ICMP_EQ: z = Z3_mk_eq(Z, x, y); break;
-  case CmpInst::ICMP_NE: z = Z3_mk_not(Z, Z3_mk_eq(Z, x, y)); break;
-  case CmpInst::ICMP_UGT: z = Z3_mk_bvugt(Z, x, y); break;
-  case CmpInst::ICMP_UGE: z = Z3_mk_bvuge(Z, x, y); break;
+  case CmpInst::ICMP_EQ: z = eq(x, y); break;
+  case CmpInst::ICMP_NE: z = Z3_mk_not(Z, eq(x, y)); break;
+  case CmpInst::ICMP_UGT: z = Z3_mk_bvult(Z, y, x); break;
+  case CmpInst::ICMP_UGE: z = Z3_mk_not(Z, Z3_mk_bvult(Z, x, y)); break;
   case CmpInst::ICMP_ULT: z = Z3_mk_bvult(Z, x, y); break;
-  case CmpInst::ICMP_ULE: z = Z3_mk_bvule(Z, x, y); break;
-  case CmpInst::ICMP_SGT: z = Z3_mk_bvsgt(Z, x, y); break;
-  case CmpInst::ICMP_SGE: z = Z3_mk_bvsge(Z, x, y); break;
+  case CmpInst::ICMP_ULE: z = Z3_mk_not(Z, Z3_mk_bvult(Z, y, x)); break;
+  case CmpInst::ICMP_SGT: z = Z3_mk_bvslt(Z, y, x); break;
+  case CmpInst::ICMP_SGE: z = Z3_mk_not(Z, Z3_mk_bvslt(Z, x, y)); break;
   case CmpInst::ICMP_SLT: z = Z3_mk_bvslt(Z, x, y); break;
-  case CmpInst::ICMP_SLE: z = Z3_mk_bvsle(Z, x, y); break;
+  case CmpInst::ICMP_SLE: z = Z3_mk_not(Z, Z3_mk_bvslt(Z, y, x)); break;
   default: unsupported("icmp predicate");
   }
   Val v = S(z, 1);
